@@ -245,6 +245,10 @@ class Dyn:
         self.hashes = set()
         self.samples = []
         self.wit = []
+        # a failing operation on an unrelated object before about every fifth case (vf/errinject.py): own random
+        # stream, so that the judged cases are the same with and without it
+        self.erng = random.Random(h64("C03-err", spec.get("seed"), spec.get("name")))
+        self.after_error = None
         self.cov = {"classes_exercised": 0, "single_attribute_cases": 0, "subset_cases": 0, "all_attr_cases": 0,
                     "attrs_skipped_static_defect": 0, "list_attr_multi": 0, "container_depth": {},
                     "untyped_cases": 0, "with_extras": 0}
@@ -256,13 +260,17 @@ class Dyn:
     def result(self):
         for p in ("C01", "C02", "C04"):
             self.mon.take(p)
+        from vf import errinject
+        self.cov["provoked_failures_between_cases"] = dict(errinject.COUNTS)
         return {"evaluations": self.evals, "hashes": sorted(self.hashes), "witnesses": self.wit,
                 "samples": self.samples, "coverage": self.cov}
 
     # ----- one message-class case
     def msg_case(self, cls, chosen_defs, rng, label, n_extra=0):
         from diameter.message import Message
+        from vf import errinject
         md, L = self.md, self.L
+        self.after_error = errinject.maybe(self.erng)
         b = Builder(md, rng)
         m = cls()
         m.header.hop_by_hop_identifier = rng.getrandbits(32)
@@ -301,7 +309,8 @@ class Dyn:
                 self.cov.get("extras_with_declared_code_other_vendor", 0) + getattr(b, "colliding_extras", 0)
         names = sorted(set_vals)
         self.evals += 1
-        desc = {"class": cls.__name__, "case": label, "set": names[:12], "extras": n_extra}
+        desc = {"class": cls.__name__, "case": label, "set": names[:12], "extras": n_extra,
+                "after_provoked_failure": self.after_error}
         try:
             wire = m.as_bytes()
         except Exception as e:
@@ -399,7 +408,9 @@ class Dyn:
         from diameter.message.avp import Avp
         from diameter.message.avp.generator import generate_avps_from_defs
         from diameter.message.commands._attributes import assign_attr_from_defs
+        from vf import errinject
         md, L = self.md, self.L
+        self.after_error = errinject.maybe(self.erng)
         b = Builder(md, rng)
         obj = ccls()
         exp = []
@@ -413,7 +424,7 @@ class Dyn:
                 exp.extend(b.expect_items(ccls, d, e))
         self.evals += 1
         names = sorted(set_vals)
-        desc = {"class": ccls.__name__, "case": label, "set": names[:12]}
+        desc = {"class": ccls.__name__, "case": label, "set": names[:12], "after_provoked_failure": self.after_error}
         try:
             avps = generate_avps_from_defs(obj)
             body = b"".join(a.as_bytes() for a in avps)
